@@ -38,7 +38,7 @@ POSSIBILITY OF SUCH DAMAGE.
 NTR:
 '''
 
-from ..basis import Params, SearchFacade, SearchResults
+from ..basis import Params, Range, SearchFacade, SearchResults
 from .enums import Table
 from .state import DBI
 from .util import dissect, prime_keys
@@ -49,10 +49,14 @@ class SearchImplementation(SearchFacade):
         '''return all of the prime keys that match the constraints'''
         # alignment of keys       runid  tgt    task   alg     sv     val
         constraints: list[set] = [set(), set(), set(), set(), set(), set()]
+        ranges = []
         results = set()
         for k, v in filter(lambda t: bool(t[1]), parameters._asdict().items()):
             if k == 'runids':
-                constraints[_align(k)].update(v)
+                ranges = [rid for rid in v if isinstance(rid, Range)]
+                constraints[_align(k)].update(
+                    rid for rid in v if not isinstance(rid, Range)
+                )
                 constraints[_align(k)].discard(-1)
             else:
                 table = DBI().tables[_table_index(k)]
@@ -61,7 +65,13 @@ class SearchImplementation(SearchFacade):
                     subvalues = subtable.values() if subtable else [-1]
                     constraints[_align(k)].update(subvalues)
         for pk in prime_keys(DBI().tables.prime):
-            if all(not c or e in c for c, e in zip(constraints, pk)):
+            if ranges and any(pk[0] in r for r in ranges):
+                inrun = True
+            else:
+                inrun = not (ranges or constraints[0]) or pk[0] in constraints[0]
+            if inrun and all(
+                not c or e in c for c, e in zip(constraints[1:], pk[1:])
+            ):
                 results.add(pk[:keylen])
         return sorted(results)
 
